@@ -403,6 +403,12 @@ class PropertyCheck:
     def report_violation(self, key, label, viol, ob):
         viol = dict(viol)
         viol["function"] = key
+        pref = self.spec.get("clause_prefixes")
+        if pref and key.startswith("e2e:"):
+            # a shared monitor evaluates the clauses of several properties; this check judges its own
+            viol["failed"] = [f for f in viol.get("failed", []) if any(f.startswith(x) for x in pref)]
+            if not viol["failed"]:
+                return
         # labels explained by a listed finding are set aside; anything left is still a violation
         remaining = list(viol.get("failed", []))
         for e in self.known_entries:
